@@ -236,6 +236,47 @@ func (p *Program) installIntrinsics() {
 		return fr.m.hashBytes(a[0].(Str).Terms())
 	}
 
+	// streaming digest: the bytes written so far are kept per Digest object; reading and
+	// writing them are memory accesses of that object for the race analysis
+	digestAcc := func(fr *frame, v Value, write bool) *Value {
+		p := v.(*Value)
+		if p == nil {
+			fr.m.runtimePanic(fr, token.NoPos, "invalid memory address or nil pointer dereference")
+		}
+		if fr.m.lockset != nil && fr.m.locksetOn {
+			fr.m.lockset.access(fr.m, p, write, token.NoPos)
+		}
+		if fr.m.digests == nil {
+			fr.m.digests = map[*Value][]*Term{}
+		}
+		return p
+	}
+	in["github.com/cespare/xxhash/v2.New"] = func(fr *frame, a []Value) Value {
+		cell := zero(fr.m.P.namedType("github.com/cespare/xxhash/v2", "Digest"))
+		return &cell
+	}
+	in["(*github.com/cespare/xxhash/v2.Digest).Reset"] = func(fr *frame, a []Value) Value {
+		p := digestAcc(fr, a[0], true)
+		fr.m.digests[p] = nil
+		return nil
+	}
+	in["(*github.com/cespare/xxhash/v2.Digest).Write"] = func(fr *frame, a []Value) Value {
+		p := digestAcc(fr, a[0], true)
+		bs := sliceTerms(a[1].(Slice))
+		fr.m.digests[p] = append(append([]*Term{}, fr.m.digests[p]...), bs...)
+		return Tuple{K(64, uint64(len(bs))), Iface{}}
+	}
+	in["(*github.com/cespare/xxhash/v2.Digest).WriteString"] = func(fr *frame, a []Value) Value {
+		p := digestAcc(fr, a[0], true)
+		bs := a[1].(Str).Terms()
+		fr.m.digests[p] = append(append([]*Term{}, fr.m.digests[p]...), bs...)
+		return Tuple{K(64, uint64(len(bs))), Iface{}}
+	}
+	in["(*github.com/cespare/xxhash/v2.Digest).Sum64"] = func(fr *frame, a []Value) Value {
+		p := digestAcc(fr, a[0], false)
+		return fr.m.hashBytes(fr.m.digests[p])
+	}
+
 	// ---- misc std
 	in["internal/stringslite.Clone"] = func(fr *frame, a []Value) Value { return a[0] }
 	in["strings.Clone"] = func(fr *frame, a []Value) Value { return a[0] }
@@ -877,6 +918,7 @@ func (p *Program) installVerif() {
 		}
 		return nil
 	}
+	v["verifChdirTemp"] = func(fr *frame, a []Value) Value { return nil }
 	v["verifSchedule"] = func(fr *frame, a []Value) Value {
 		fr.m.schedOn = a[0].(*Term).val == 1
 		if fr.m.schedOn {
